@@ -6,6 +6,7 @@ import Rough.Driver.Stats
 import Rough.Driver.Client
 import Rough.Driver.Config
 import Rough.Driver.Envelope
+import Rough.Driver.Procs
 open Rough Rough.Driver
 
 def dispatch (op : String) (args : List String) (impl : String) : Verdict :=
@@ -25,6 +26,11 @@ def dispatch (op : String) (args : List String) (impl : String) : Verdict :=
   | "cfg" => opCfg args impl
   | "envenc" => opEnvEnc args impl
   | "envdec" => opEnvDec args impl
+  | "startup" => opStartup args impl
+  | "mw" => opMw args impl
+  | "sd" => opSd args impl
+  | "clientreal" => opClientReal args impl
+  | "procleak" => opProcLeak args impl
   | "respond" => opRespond (args ++ [impl])
   | _ => bad ("unknown op " ++ op)
 
